@@ -249,7 +249,7 @@ def run_protocol(DP, F, case, mode):
         trees = [terms.get(tuple(float(v) for v in f.parameters.values()), "(Start %d)" % j) for j, f in enumerate(deps)]
     obs = {"conds": conds, "log": log, "err": err, "trees": trees,
            "may": [bool(f._may_fit) for f in deps],
-           "saved": [ytag[id(f.y)] if hasattr(f, "y") else None for f in deps],
+           "saved": [ytag[id(f.y)] if getattr(f, "y", None) is not None else None for f in deps],
            "fc": [sorted(idx[id(c)] for c in f._fitted_conditioners) for f in deps],
            "deps": deps, "calls": rec.calls, "data": keep}
     return obs
@@ -797,7 +797,7 @@ def run_cond_dist(virocon, DP, F, c, mode="tag"):
         terms[cl["popt"]] = "(Fitted %d %d %s [%s])" % (j, tag_of(cl["y"]), p0t, "; ".join(envt))
     trees = [terms.get(tuple(float(v) for v in f.parameters.values()), "(Start %d)" % j) for j, f in enumerate(deps)]
     obs = {"conds": conds, "log": log, "trees": trees, "may": [bool(f._may_fit) for f in deps],
-           "saved": [tag_of(f.y) if hasattr(f, "y") else None for f in deps],
+           "saved": [tag_of(f.y) if getattr(f, "y", None) is not None else None for f in deps],
            "fc": [sorted(idx[id(x)] for x in f._fitted_conditioners) for f in deps]}
     template_same = dict(cd.distribution.parameters) == template_before
     return {"ctbl": c["ctbl"], "ops": ops}, obs, template_same
@@ -815,6 +815,17 @@ def cond_dist_real_oracle(virocon, DP, c):
         return a + b * x
     order = names if not c.get("reverse") else names[::-1]
     params = {nm: DP.DependenceFunction(line) for nm in order}
+    chain = None
+    if c.get("chain") and len(names) >= 2:
+        # the function of one parameter uses the function of another as a parameter; `chain` = (conditioner, dependent):
+        # "first" = the conditioner's parameter comes FIRST in the distribution's parameter order (it is fitted before the
+        # dependent has ever been given data), "last" = the dependent is handed its data first
+        cond_nm, dep_nm = (names[0], names[1]) if c["chain"] == "first" else (names[-1], names[0])
+
+        def on_other(x, a, b, g):
+            return a * g(x) + b * x * x
+        params[dep_nm] = DP.DependenceFunction(on_other, g=params[cond_nm])
+        chain = (cond_nm, dep_nm)
     cd = ConditionalDistribution(dist, params)
     r = np.random.default_rng([c["seed"], 144])
     nint = c.get("nint", 5)
@@ -828,15 +839,21 @@ def cond_dist_real_oracle(virocon, DP, c):
     A = np.c_[np.ones_like(x), x]
     for nm in names:
         y = np.array([float(pp[nm]) for pp in cd.parameters_per_interval])
+        A = np.c_[np.ones_like(x), x]
+        if chain and nm == chain[1]:        # least-squares chain: basis evaluated with the FINAL conditioner function
+            A = np.c_[cd.conditional_parameters[chain[0]](x), x * x]
+            if np.linalg.cond(A) > 1e6:
+                continue
         ref = np.linalg.lstsq(A, y, rcond=None)[0]
         got = np.array([float(v) for v in cd.conditional_parameters[nm].parameters.values()])
         s_ref, s_got = float(np.sum((A @ ref - y) ** 2)), float(np.sum((A @ got - y) ** 2))
         if s_got > s_ref * (1 + 1e-6) + 1e-9 * max(1.0, float(np.sum(y * y))):
             others = {o: [round(float(pp[o]), 4) for pp in cd.parameters_per_interval] for o in cd.param_names if o != nm}
             return ({"clause": "conditional-fit-data", "site": "ConditionalDistribution.fit"},
-                    "%sDistribution(%s), conditional %r: the dependence function of %s holds %r, the least-squares line through its per-interval "
+                    "%sDistribution(%s), conditional %r%s: the dependence function of %s holds %r, the least-squares fit to its per-interval "
                     "estimates %r is %r (residual %.4g vs %.4g); estimates of the other parameters: %r"
-                    % (tmpl[0], ", ".join("%s=%r" % kv for kv in tmpl[1].items()), names, nm, [round(float(v), 5) for v in got],
+                    % (tmpl[0], ", ".join("%s=%r" % kv for kv in tmpl[1].items()), names,
+                       "" if not chain else " (the function of %s uses the function of %s)" % (chain[1], chain[0]), nm, [round(float(v), 5) for v in got],
                        [round(float(v), 4) for v in y], [round(float(v), 5) for v in ref], s_got, s_ref, others))
     return "ok"
 
@@ -1142,7 +1159,7 @@ def run(ctx):
     cd_fail = None
     for k in range(ctx.n(2, 8) * len(TEMPLATES)):
         cc = {"template": [TEMPLATES[k % len(TEMPLATES)][0], dict(TEMPLATES[k % len(TEMPLATES)][1])], "seed": rng.randrange(1 << 30),
-              "reverse": bool(k % 2), "nint": rng.randrange(3, 7)}
+              "reverse": bool(k % 2), "nint": rng.randrange(3, 7), "chain": [None, "first", "last"][(k // len(TEMPLATES) + k) % 3]}
         o = cond_dist_real_oracle(virocon, DP, cc)
         ctx.count(("conddist-real", str(cc["template"]), cc["reverse"], cc["nint"], cc["seed"]), o is not None)
         if o is None:
